@@ -365,6 +365,331 @@ def oracle(ctx, budget):
     return count
 
 
+# ------------------------------------------------------------------ ordering: correspondence with C01/AxisOrder.v
+def nonsym_perm(rng, n, kind):
+    """A permutation p of range(n) (n >= 3) that is NOT its own inverse: p[p] != arange(n)."""
+    ar = np.arange(n)
+    if kind == 'rot':
+        k = int(rng.integers(1, n))
+        if 2 * k == n:
+            k -= 1
+        p = np.roll(ar, k)
+    elif kind == 'interleave':
+        p = np.r_[ar[0::2], ar[1::2]]
+        if np.array_equal(p[p], ar):      # n <= 4: evens-then-odds is a transposition
+            p = np.roll(ar, 1)
+    else:
+        p = rng.permutation(n)
+        while np.array_equal(p[p], ar):
+            p = rng.permutation(n)
+    assert sorted(p.tolist()) == ar.tolist() and not np.array_equal(p[p], ar)
+    return p
+
+
+def zlist(v):
+    return '[' + '; '.join(str(int(t)) for t in v) + ']'
+
+
+def axis_correspondence(ctx):
+    """Baseline2D.individual_axes must build its inner 1-D fitters on the CALLER's axis values.  The
+    constructor calls `Baseline(axis_values[axis], ..., assume_sorted=...)` of the current source are recorded
+    (the name `Baseline` inside pybaselines.two_d.optimizers is replaced by a recording subclass for the
+    duration of the call) and compared inside Coq with the model C01.AxisOrder.individual_axes_values
+    computed from x_user, z_user alone (integer-valued distinct axis values)."""
+    import inspect
+    import pybaselines.two_d.optimizers as O2
+    from pybaselines import Baseline2D
+    ob = 'correspondence:individual_axes-axis-values-handed-to-inner-fitters'
+    ctx.obligations.append(ob)
+    rng = np.random.default_rng([ctx.seed, 101])
+    orig = O2.Baseline
+    log = []
+    sig = inspect.signature(orig.__init__)
+
+    class Recording(orig):
+        def __init__(self, *args, **kwargs):
+            ba = sig.bind(self, *args, **kwargs)
+            xd = ba.arguments.get('x_data')
+            log.append((None if xd is None else np.array(xd, dtype=float, copy=True), bool(ba.arguments.get('assume_sorted', False))))
+            super().__init__(*args, **kwargs)
+
+    lits, calls = [], []
+    kinds = ['rot', 'interleave', 'shuffle', 'reverse', 'sorted']
+    n_obj = ctx.n(18, 60)
+    O2.Baseline = Recording
+    try:
+        with warnings.catch_warnings():
+            warnings.simplefilter('ignore')
+            for j in range(n_obj):
+                m, n = int(rng.integers(4, 12)), int(rng.integers(4, 12))
+                which = ['x', 'z', 'xz', 'xz', 'x', 'z', 'none'][j % 7]
+                axes_u = []
+                for size, tag in ((m, 'x'), (n, 'z')):
+                    vals = np.sort(rng.choice(np.arange(-30, 60), size=size, replace=False)).astype(float)
+                    kind = kinds[int(rng.integers(0, 3))] if tag in which else 'sorted'
+                    if tag in which and j % 9 == 8:
+                        kind = 'reverse'      # an involution: forward and inverted rebuild coincide (model still has to agree)
+                    p = (np.arange(size) if kind == 'sorted' else np.arange(size)[::-1] if kind == 'reverse'
+                         else nonsym_perm(rng, size, kind))
+                    axes_u.append((vals[p], kind))
+                (xu, kx), (zu, kz) = axes_u
+                y = rng.normal(0, 1, (m, n)) + np.add.outer(xu, zu) * 0.05
+                for axes in (0, 1, (0, 1), (1, 0)):
+                    del log[:]
+                    call = {'kind': 'axis-values', 'x_user': xu.tolist(), 'z_user': zu.tolist(), 'perm_x': kx, 'perm_z': kz,
+                            'axes': axes, 'seed': ctx.seed}
+                    try:
+                        Baseline2D(xu, zu).individual_axes(y, axes=axes, method='asls', method_kwargs={'lam': 1e2, 'max_iter': 2})
+                    except Exception as exc:  # noqa
+                        ctx.broke(ob, f'individual_axes raised {type(exc).__name__}: {exc} on {call}')
+                        return
+                    want = [axes] if isinstance(axes, int) else list(axes)
+                    if len(log) != len(want):
+                        ctx.broke(ob, f'individual_axes(axes={axes}) constructed {len(log)} inner fitters, expected {len(want)}')
+                        return
+                    for ax, (xd, assume) in zip(want, log):
+                        if xd is None or not np.array_equal(xd, np.round(xd)):
+                            ctx.broke(ob, f'inner fitter for axis {ax} constructed with x_data={xd} on {call}')
+                            return
+                        nontriv = (kx if ax == 0 else kz) in ('rot', 'interleave', 'shuffle')
+                        ctx.case(('axis-values', tuple(xu), tuple(zu), axes, ax), nontrivial=nontriv,
+                                 kind=f'axis-values:{"unsorted" if nontriv else "sorted-or-reversed"}')
+                        lits.append(f'({zlist(xu)}, {zlist(zu)}, {ax}%nat, {zlist(xd)}, {coqbool(assume)})')
+                        calls.append(dict(call, axis=ax, recorded=xd.tolist(), assume_sorted=assume))
+    finally:
+        O2.Baseline = orig
+    text = f"""From Coq Require Import ZArith List Bool.
+From PB Require Import lib.Perm lib.CaseUtil C01.AxisOrder.
+Import ListNotations.
+Open Scope Z_scope.
+Definition cases : list (list Z * list Z * nat * list Z * bool) := [
+{chr(10).join('  ' + l + (';' if i + 1 < len(lits) else '') for i, l in enumerate(lits))}
+].
+Definition ok (c : list Z * list Z * nat * list Z * bool) : bool :=
+  let '(x, z, ax, recorded, assume) := c in
+  let '(mx, mz, ma) := individual_axes_values x z in
+  zl_eqb (match ax with O => mx | _ => mz end) recorded && Bool.eqb ma assume.
+Eval vm_compute in (bad ok cases).
+"""
+    vals = ctx.coq_eval('axisorder', text)
+    if vals is None:
+        return
+    import re
+    mm = re.match(r'\((\d+)(?:%nat)?, \[(.*)\]\)', vals[0]) if vals else None
+    if not mm:
+        ctx.broke(ob, f'unparsable Coq output {vals}')
+    elif int(mm.group(1)) != 0:
+        idxs = [int(t.replace('%nat', '')) for t in mm.group(2).split(';') if t.strip()]
+        c = calls[idxs[0]]
+        ctx.broke(ob, f'{mm.group(1)} of {len(lits)} recorded constructor calls differ from the model; first: Baseline2D(x={c["x_user"]}, '
+                      f'z={c["z_user"]}).individual_axes(axes={c["axes"]}) built the inner fitter of axis {c["axis"]} with x_data={c["recorded"]}, '
+                      f'assume_sorted={c["assume_sorted"]} (model: the caller\'s axis values)')
+    else:
+        ctx.discharged.append(ob)
+        ctx.note(f'{len(lits)} recorded inner-fitter constructions of individual_axes agree with C01.AxisOrder.individual_axes_values')
+
+
+# ------------------------------------------------------------------ ordering: direct oracle
+# Output ordering (statement: "the baseline has the shape of the input data ..., ITS ORDERING ..."): with
+# xs = x[perm], ys = y[perm] for a permutation that is not its own inverse, a fresh fitter on xs must return
+# baseline(x, y)[perm] and every per-point params entry permuted the same way (2-D: [px][:, pz]).
+#
+# Which params entries are per-point was decided key by key on the unchanged tree (every catalogue method,
+# 1-D and 2-D, 3 permutation kinds): an ndarray leaf (recursively through dicts / lists such as
+# method_params, params_rows, ...) whose TRAILING dimensions equal the data dimensions is per-point in the
+# caller's order -- weights, mask, alpha, signal, constrained_weights, average_weights, method_params/weights,
+# baseline_rows, baseline_columns -- EXCEPT the keys below, which live in another space and must simply not
+# depend on the input order (they are compared unpermuted; their length can coincide with N):
+NOT_PER_POINT = {
+    'tol_history': 'convergence record (1-D, or 2-D for brpls / goldindec / jbcd); length up to max_iter + 1',
+    'poly_order': 'adaptive_minmax: the two polynomial orders',
+    'rmse': 'optimize_extended_range: one value per tried parameter',
+    'half_window': 'morphological / smoothing methods: scalar or one value per axis',
+    'coef': 'polynomial coefficients (return_coef=True)',
+    'tck': 'spline knots / coefficients / degree',
+    'dof': 'degrees of freedom (return_dof=True)',
+    'x_fit': 'custom_bc / peak_filling: the truncated / sampled (sorted) x the inner fit ran on',
+    'y_fit': 'custom_bc: the truncated / sampled y in x_fit order',
+    'baseline_fit': 'custom_bc / peak_filling: the inner baseline in x_fit order',
+}
+# custom_bc: everything under method_params belongs to the inner fit on (x_fit, y_fit), i.e. is in x_fit space
+# (sorted, possibly truncated / sampled) even when its length equals N with the default region and sampling=1.
+FIT_SPACE_SUBTREES = {('custom_bc', 'method_params')}
+ORDER_RTOL = 1e-10
+# Tolerance, decided by experiment on the unchanged tree: all 62 1-D methods are bit-identical between the
+# sorted and the unsorted run (the wrapper sorts to the very same contiguous arrays).  2-D: bit-identical
+# except when ONLY z is unsorted -- y[..., z_order] is a strided view, BLAS / einsum then sum in another order
+# and pspline / mixture_model results differ by ~1e-13 relative.  Hence: exact comparison first; a
+# floating-point leaf that is not bit-identical passes iff allclose(rtol=1e-10, atol=1e-10 * max|expected|)
+# (an ordering defect moves values by the size of the signal, ~1e-1 relative).  1-D runs are required to be
+# bit-identical.
+ORDER_SHAPES_2D = [(11, 13), (12, 10), (13, 11)]    # >= 10 per axis: the 2-D Whittaker methods need num_eigens=(10, 10)
+
+
+def order_same(exp, got, exact):
+    exp, got = np.asarray(exp), np.asarray(got)
+    if exp.shape != got.shape:
+        return False
+    if exp.dtype == object or got.dtype == object:
+        return bool(np.all(exp == got))
+    if np.array_equal(exp, got, equal_nan=exp.dtype.kind in 'fc'):
+        return True
+    if exact or exp.dtype.kind not in 'fc' or got.dtype.kind not in 'fc':
+        return False
+    fin = np.abs(exp[np.isfinite(exp)])
+    scale = float(fin.max()) if fin.size else 1.0
+    return bool(np.allclose(got, exp, rtol=ORDER_RTOL, atol=ORDER_RTOL * max(scale, 1e-300), equal_nan=True))
+
+
+def order_walk(name, ps, pu, dims, perms, exact, path, report):
+    """Compares the params of the sorted run (ps) with those of the unsorted run (pu).  dims = data
+    dimensions ((N,) or (M, N)), perms = one index array per dimension.  report(key, what) on a mismatch."""
+    key = '/'.join(str(q) for q in path if not isinstance(q, int)) or '<params>'
+    if isinstance(ps, dict) or isinstance(pu, dict):
+        if not (isinstance(ps, dict) and isinstance(pu, dict)) or set(ps) != set(pu):
+            report(key, f'keys differ between the sorted and the unsorted run: {sorted(map(str, ps))} vs {sorted(map(str, pu))}')
+            return
+        for k in ps:
+            order_walk(name, ps[k], pu[k], dims, perms, exact, path + (k,), report)
+        return
+    if isinstance(ps, (list, tuple)) or isinstance(pu, (list, tuple)):
+        if not (isinstance(ps, (list, tuple)) and isinstance(pu, (list, tuple))) or len(ps) != len(pu):
+            report(key, 'list lengths differ between the sorted and the unsorted run')
+            return
+        idx = range(len(ps))
+        if name == 'individual_axes' and len(path) == 2 and path[0] in ('params_rows', 'params_columns'):
+            # one entry per column (params_rows: 1-D fits along axis 0) / per row, in the caller's order
+            other = 1 if path[0] == 'params_rows' else 0
+            if len(ps) != dims[other]:
+                report(key, f'{len(ps)} entries, expected one per {"column" if other else "row"} ({dims[other]})')
+                return
+            idx = perms[other]
+            dims, perms = (dims[1 - other],), (perms[1 - other],)
+        for i, j in enumerate(idx):
+            order_walk(name, ps[j], pu[i], dims, perms, exact, path + (i,), report)
+        return
+    a, b = np.asarray(ps), np.asarray(pu)
+    names = [q for q in path if not isinstance(q, int)]
+    fit_space = any((name, q) in FIT_SPACE_SUBTREES for q in names)
+    per_point = (a.ndim >= len(dims) and a.shape[a.ndim - len(dims):] == tuple(dims)
+                 and not fit_space and not (names and names[-1] in NOT_PER_POINT))
+    if per_point:
+        exp = a[..., perms[0]] if len(dims) == 1 else a[..., perms[0][:, None], perms[1][None, :]]
+        if not order_same(exp, b, exact):
+            dev = ''
+            if b.shape == exp.shape and exp.dtype.kind in 'fc':
+                dev = (f' (max deviation {np.nanmax(np.abs(exp - b)):.3g}; equal to the UNPERMUTED sorted-run values: '
+                       f'{order_same(a, b, exact)})')
+            report(key, f'per-point entry is not the sorted-x result permuted like the input{dev}')
+    else:
+        if not order_same(a, b, exact):
+            report(key, 'entry that does not live in data space depends on the ordering of the input')
+
+
+def order_call(name, two_d, fitter, y, ref, extra):
+    if name == 'interp_pts':
+        xr, yr = ref     # same anchor points for both runs
+        h = len(xr) // 2
+        pts = np.array([[xr[0], yr[0]], [xr[h], yr[h]], [xr[-1], yr[-1]]])
+        return fitter.interp_pts(y, baseline_points=pts)
+    if name == 'collab_pls':
+        return fitter.collab_pls(np.array([y, y * 1.1 + 1]), **M.call_kwargs(name, two_d, **extra))
+    return getattr(fitter, name)(y, **M.call_kwargs(name, two_d, **extra))
+
+
+def order_jobs(two_d):
+    """[(method, extra kwargs, number of data sets)]"""
+    if not two_d:
+        return [(name, {}, 2) for name in M.method_names()]
+    jobs = [(name, {}, 3) for name in M.method_names(True)]
+    jobs += [('individual_axes', {'axes': a}, 3) for a in (0, 1, (1, 0))]
+    jobs += [('individual_axes', {'axes': (0, 1), 'method': 'imodpoly', 'method_kwargs': {'poly_order': 2}}, 3),
+             ('individual_axes', {'axes': (1, 0), 'method': 'pspline_arpls', 'method_kwargs': [{'lam': 10, 'num_knots': 5}]}, 3),
+             ('individual_axes', {'axes': (0, 1), 'method': 'mor', 'method_kwargs': ({'half_window': 2}, {'half_window': 3})}, 3)]
+    return jobs
+
+
+def order_case(ctx, name, two_d, extra, j):
+    """One sorted-vs-unsorted comparison; deterministic from (ctx.seed, name, two_d, extra, j)."""
+    import inspect
+    import zlib
+    from pybaselines import Baseline, Baseline2D
+    rng = np.random.default_rng([ctx.seed, 77, zlib.crc32(repr((name, sorted(extra.items(), key=str))).encode()), int(two_d), j])
+    prng = random.Random(int(rng.integers(0, 2 ** 31)))
+    dim = '2d' if two_d else '1d'
+    kw = dict(extra)
+    cls = Baseline2D if two_d else Baseline
+    if (name != 'interp_pts' and 'max_iter' in inspect.signature(getattr(cls, name)).parameters
+            and 'max_iter' not in ((M.KW_2D if two_d else M.KW_1D)[name] or {})):
+        kw['max_iter'] = 3 + j % 3
+    kinds = ['rot', 'interleave', 'shuffle']
+    if two_d:
+        m, n = ORDER_SHAPES_2D[(j + len(name)) % 3]
+        x, z, y = M.make_z2d(rng, m, n)
+        which = ['xz', 'x', 'z'][j % 3]
+        kx, kz = kinds[int(rng.integers(0, 3))], kinds[int(rng.integers(0, 3))]
+        px = nonsym_perm(rng, m, kx) if 'x' in which else np.arange(m)
+        pz = nonsym_perm(rng, n, kz) if 'z' in which else np.arange(n)
+        dims, perms = (m, n), (px, pz)
+        ys = y[px][:, pz]
+        mk_sorted, mk_unsorted = (lambda: Baseline2D(x, z)), (lambda: Baseline2D(x[px], z[pz]))
+        ref = None
+        call = {'kind': 'order', 'method': name, 'two_d': True, 'extra': repr(extra), 'j': j, 'shape': [m, n], 'unsorted': which,
+                'perm_x': kx if 'x' in which else 'identity', 'perm_z': kz if 'z' in which else 'identity',
+                'px': px.tolist(), 'pz': pz.tolist(), 'kwargs': repr(kw), 'seed': ctx.seed}
+    else:
+        n = [31, 37, 41, 44][(j + len(name)) % 4]
+        x = M.make_x(prng, n, 'random' if j % 2 == 0 else 'uniform')
+        y = M.make_y(rng, x)
+        kp = kinds[(j + len(name) + ctx.seed) % 3]
+        p = nonsym_perm(rng, n, kp)
+        dims, perms = (n,), (p,)
+        ys = y[p]
+        mk_sorted, mk_unsorted = (lambda: Baseline(x)), (lambda: Baseline(x[p]))
+        ref = (x, y)
+        call = {'kind': 'order', 'method': name, 'two_d': False, 'extra': repr(extra), 'j': j, 'n': n, 'perm': kp,
+                'p': p.tolist(), 'kwargs': repr(kw), 'seed': ctx.seed}
+    res = []
+    for mk, data in ((mk_sorted, y), (mk_unsorted, ys)):     # independent fitter objects
+        try:
+            b, prm = order_call(name, two_d, mk(), data, ref, kw)
+            res.append((np.asarray(b), prm, None))
+        except Exception as exc:  # noqa
+            res.append((None, None, exc))
+    (bs, ps, es), (bu, pu, eu) = res
+    tag = f'order:{name}:{dim}'
+    if es is not None or eu is not None:
+        if (es is None) != (eu is None):
+            ctx.fail(tag + ':raises', f'{name}: the {"sorted" if es is not None else "unsorted"}-input call raised '
+                     f'{type(es or eu).__name__} ({es or eu}) while the other ordering of the same points returned', call)
+        ctx.case(('order-raise', name, two_d, repr(extra), j), nontrivial=False, kind='order:raised:' + type(es or eu).__name__)
+        return
+    ctx.case(('order', name, two_d, repr(extra), j), nontrivial=True, kind=f'order:{dim}')
+    exact = not two_d
+    exp = bs[..., perms[0]] if not two_d else bs[..., perms[0][:, None], perms[1][None, :]]
+    if bs.shape[bs.ndim - len(dims):] != tuple(dims) or not order_same(exp, bu, exact):
+        dev = ''
+        if bu.shape == exp.shape:
+            dev = (f'max deviation {np.nanmax(np.abs(exp - bu)):.3g} (signal ~{np.nanmax(np.abs(exp)):.3g}); equal to the '
+                   f'UNPERMUTED sorted-run baseline: {order_same(bs, bu, exact)}')
+        ctx.fail(tag + ':baseline', f'{name} ({dim}, {call.get("unsorted", "x")} unsorted by a {call.get("perm") or (call["perm_x"], call["perm_z"])} '
+                 f'permutation): the baseline is not the sorted-input baseline permuted like the input; {dev}', call)
+    order_walk(name, ps, pu, dims, perms, exact, (),
+               lambda k, what: ctx.fail(f'{tag}:params:{k}', f'{name} ({dim}): params[{k}]: {what}', call))
+
+
+def order_oracle(ctx):
+    count = 0
+    with warnings.catch_warnings():
+        warnings.simplefilter('ignore')
+        for two_d in (False, True):
+            for name, extra, reps in order_jobs(two_d):
+                for j in range(reps if ctx.tier == 'quick' and not ctx.broken else reps * 3):
+                    order_case(ctx, name, two_d, extra, j)
+                    count += 1
+    return count
+
+
 def schema_vs_source(ctx):
     """The hand-written schema that drives the trace validation (budget = max_iter + off) must agree
     with the loop bounds the translator reads from the current source (gen/GenLoops.v)."""
@@ -401,24 +726,43 @@ def run(ctx):
                 '{0,1,2,3,5} x {0, mid, inf}; the recorded differences and early-exit flags of a never-stopping run feed the '
                 'Coq loop skeleton whose predicted record length / returned pass / returned weights must equal the observed ones '
                 'bit-for-bit; shape decisions of _check_array on all shapes with dims in {1,2,3,5} up to 3-D; direct oracle on all '
-                '95 methods x data kinds x dtypes x layouts x sorted/unsorted; non-trivial = call returned with a non-empty record '
-                '(trace) / call returned (oracle) / ndim>=2 (shapes)')
+                '95 methods x data kinds x dtypes x layouts x sorted/unsorted; ordering: the x_data / assume_sorted of every inner '
+                'Baseline that Baseline2D.individual_axes constructs (recorded through a subclass patched into '
+                'pybaselines.two_d.optimizers) for integer axes of length 4..11 unsorted by non-involutive rotations / interleaves / '
+                'shuffles (x only, z only, both, none, reversed) x axes in {0, 1, (0,1), (1,0)} must equal the Coq model '
+                'individual_axes_values computed from the user axes alone; order oracle: every catalogue method (62 1-D x 2 data '
+                'sets, 33 2-D + 6 individual_axes variants x {x, z, both unsorted}) run on sorted axes and, with a fresh fitter, '
+                'on the same points permuted by a permutation that is not its own inverse: baseline and every per-point params '
+                'entry (recursively: method_params, params_rows/columns lists, baseline_rows/columns) must be the sorted-input '
+                'result permuted like the input, every other entry unchanged; non-trivial = call returned with a non-empty record '
+                '(trace) / call returned (oracle, order) / ndim>=2 (shapes) / axis really unsorted (axis values)')
     ctx.trusted += [
         'the loop bookkeeping of every single-loop method (range bounds, np.empty size, store index, prefix slice, early-exit '
         'decrement, order store/test) is translated from the source on every run (tools/gen_loops.py, fail-closed) and proved to '
         'refine the skeleton; what the oracles solve/reweight/diff compute is tied by trace validation (not proved); nested-loop '
         'methods (brpls, pspline_brpls, goldindec) and beads are covered by the direct oracle only',
         'finite output for noisy data is sampled (LAPACK / conditioning), not proved',
+        'ordering of the outputs: proved only for the axis values individual_axes hands to its inner fitters (model '
+        'C01/AxisOrder.v, tied by the recorded constructor calls); that the 1-D / 2-D wrappers (_sort_array with the '
+        'inverted order, sort_keys) and the optimizers return baseline and per-point params in the caller\'s order is '
+        'sampled by the order oracle on every catalogue method (property C02 carries the proofs about the wrappers); '
+        'axis values with ties and params keys that only appear with non-catalogue switches (return_coef, return_dof, tck) '
+        'are not exercised by the order oracle',
     ]
     ctx.gate()
     ctx.translate(['GenLoops'])
     ok = ctx.build_props(extra=['C01/Trace.vo'])
     schema_vs_source(ctx)
     shape_correspondence(ctx)
+    axis_correspondence(ctx)
     trace_validation(ctx)
     budget = 1 if (ok and not ctx.broken and ctx.tier == 'quick') else 3
     n = oracle(ctx, budget)
     ctx.note(f'direct oracle: {n} returning calls checked for shape/dtype/per-point keys/record length/finiteness (budget x{budget})')
+    n = order_oracle(ctx)
+    ctx.note(f'order oracle: {n} sorted-vs-unsorted pairs (every catalogue method, 1-D and 2-D, fresh fitters, non-involutive '
+             'rotation / interleave / shuffle of x, of z, of both): baseline and per-point params entries equal the sorted-input '
+             'result permuted like the input (1-D bit-identical, 2-D within 1e-10 relative), all other entries independent of the order')
 
 
 def replay(rep):
@@ -437,4 +781,38 @@ def replay(rep):
         lits = trace_cases(ctx, name, two_d, sch, (x2, z2, y2) if two_d else (x, y), 5)
         print(f'{len(lits)} trace cases regenerated for {name}; python-side failures: {ctx.violations}')
         return 1 if ctx.violations else 0
+    if case.get('kind') == 'order':
+        import ast
+        from .common import Ctx
+        ctx = Ctx(PROP + '-replay', 'quick', case.get('seed', 0))    # (a Ctx for PROP itself would delete the replay files)
+        ctx.known = []
+        with warnings.catch_warnings():
+            warnings.simplefilter('ignore')
+            order_case(ctx, case['method'], case['two_d'], ast.literal_eval(case['extra']), case['j'])
+        for key, what, _ in ctx.violations:
+            print('reproduced:', key, '--', what)
+        return 1 if ctx.violations else 0
+    if case.get('kind') == 'axis-values':
+        import pybaselines.two_d.optimizers as O2
+        from pybaselines import Baseline2D
+        orig, seen = O2.Baseline, []
+
+        class Recording(orig):
+            def __init__(self, x_data=None, *args, **kwargs):
+                seen.append(np.array(x_data, dtype=float))
+                super().__init__(x_data, *args, **kwargs)
+        xu, zu = np.array(case['x_user'], dtype=float), np.array(case['z_user'], dtype=float)
+        axes = case['axes'] if isinstance(case['axes'], int) else tuple(case['axes'])
+        O2.Baseline = Recording
+        try:
+            with warnings.catch_warnings():
+                warnings.simplefilter('ignore')
+                Baseline2D(xu, zu).individual_axes(np.add.outer(xu, zu) * 0.05, axes=axes, method='asls',
+                                                   method_kwargs={'lam': 1e2, 'max_iter': 2})
+        finally:
+            O2.Baseline = orig
+        want = [axes] if isinstance(axes, int) else list(axes)
+        bad = [(ax, got.tolist()) for ax, got in zip(want, seen) if not np.array_equal(got, (xu, zu)[ax])]
+        print('inner fitters built with axis values that are not the caller\'s:', bad)
+        return 1 if bad else 0
     return 1
